@@ -14,5 +14,7 @@ CONSTANTS
   SampleMod = 1
   SampleRes = 0
   NearMod = 1
+  SliceMod = 1
+  SliceRes = 0
 INVARIANTS ForAllManifests
 CHECK_DEADLOCK FALSE
